@@ -278,6 +278,7 @@ def run(tier):
                     hist.append((2, True, mem, list(ops), False))
     cases, failures, results = [], [], []
     for (n, limited, mem, ops, keyed) in hist:
+        common.tick()
         res = run_history(ld, n, limited, mem, ops, keyed)
         results.append(res)
         for msg in direct(n, limited, mem, ops, res):
@@ -312,6 +313,7 @@ def run(tier):
 def eager_snapshot(ld, r, count):
     fails = []
     for _ in range(count):
+        common.tick()
         n = r.randint(0, 6)
         calls = collections.Counter()
 
